@@ -283,3 +283,52 @@ func VerifC03IDN() {
 		verifrt.Cover("invalid")
 	}
 }
+
+// VerifC03NumericTLD: names whose final label is (almost) all digits and as
+// long as the decimal forms of 2^8 .. 2^128 are (1..4, 9..11, 19..21, 38..40
+// and 63 bytes): two positions are arbitrary ASCII bytes, the others '9' or
+// the leading digits of the power of two.  "Contains a non-digit" must not
+// depend on the label's numeric value.
+func VerifC03NumericTLD() {
+	k := [...]int{1, 2, 3, 4, 9, 10, 11, 19, 20, 21, 38, 39, 40, 63}[verifrt.Choice(14)]
+	b := []byte("a.")
+	if verifrt.Bool2() {
+		b = []byte("_s.b.")
+	}
+	fill := "99999999999999999999999999999999999999999999999999999999999999999"
+	if verifrt.Bool2() {
+		// 2^64 = 18446744073709551616, 2^128 = 340282366920938463463374607431768211456
+		fill = "1844674407370955161634028236692093846346337460743176821145600000"
+	}
+	p1, p2 := verifrt.Choice(k), k-1
+	for i := 0; i < k; i++ {
+		if i == p1 || i == p2 {
+			c := verifrt.Byte()
+			verifrt.Assume(c < 0x80 && c != '.')
+			b = append(b, c)
+		} else {
+			b = append(b, fill[i])
+		}
+	}
+	s := string(b)
+	verifAssumeNoACE(s)
+	kind := verifrt.Choice(3)
+	var err error
+	switch kind {
+	case c03Host:
+		err = ValidateHostname(s)
+	case c03SRV:
+		err = ValidateSRVDomainName(s)
+	default:
+		err = ValidateDomainName(s)
+	}
+	want := c03Ref(s, kind)
+	verifrt.ObserveBool("ok", err == nil)
+	verifrt.Assert((err == nil) == want, "validator differs from the documented grammar on a name with a numeric final label")
+	c03CheckErr(err, s)
+	if want {
+		verifrt.Cover("valid")
+	} else {
+		verifrt.Cover("invalid")
+	}
+}
